@@ -452,7 +452,13 @@ func (g *gen) ethCreate(name string, more int) *clientRec {
 		}
 		g.in.feat("eth-client-anchored-at-block-0")
 	}
-	cs, cons := g.ethStates(g.ethHeader(c.Rev, c.Anchor))
+	ah := g.ethHeader(c.Rev, c.Anchor)
+	if c.Anchor == 0 && g.rng.Intn(2) == 0 {
+		// the first block of Ethereum main net (and of most EVM chains) carries timestamp 0
+		ah.Time = 0
+		g.in.feat("eth-anchor-block-with-timestamp-0")
+	}
+	cs, cons := g.ethStates(ah)
 	if !g.try("create/eth", func(ctx sdk.Context) error {
 		if err := cs.Validate(); err != nil {
 			return err
